@@ -546,6 +546,9 @@ class Gen:
         self.emit(depth + 1, "%s = %s" % (self.pick(ATTRS), self.const()))
         for _ in range(self.i(1, 2)):
             m = self.pick(["__init__", "method", "run", "__repr__"])
+            if m in ("method", "run") and self.v >= (2, 4) and self.chance(3):
+                self.emit(depth + 1, "@%s" % self.pick(["staticmethod", "classmethod"]))
+                self.features.add("static/classmethod")
             self.emit(depth + 1, "def %s(self, p=None):" % m)
             if not self.py2 and self.chance(2):
                 self.emit(depth + 2, "super().%s()" % m)
